@@ -33,7 +33,7 @@ ones).  All of them must give the primary's answer; the first that does not is r
   exact dtype (``+ndarray``); alternatives = ARRAY_SPELLINGS (tuple, exact, non-native byte order, strided and
   negative-stride views, read-only, wider / narrower dtype of the same kind, unaligned memory, 2-d, object dtype,
   bytes / bytearray / memoryview for uint8-like elements);
-* ``rt2``: the object is REUSED: built from the first value, then every field re-assigned through the generated
+* ``rtreuse``: the object is REUSED: built from the first value, then every field re-assigned through the generated
   setters from the second value (for a union: the option of the second value is selected) before serializing;
 * ``serialize`` must return at least one fragment, each a one-dimensional memoryview of unsigned bytes.
 ``stats`` answers a JSON object with the number of times each spelling was exercised.
@@ -434,7 +434,29 @@ def _has_prim_array(node):
     return False
 
 
-def array_alternatives(t, salt, primary, fn):
+def _text_has_nan(text):
+    for tok in text.replace("[", " ").replace("]", " ").replace("{", " ").replace("}", " ").replace("<", " ").replace(">", " ").split():
+        if tok[0] == "x":
+            if tok == "xNaN":
+                return True
+            b = int(tok[1:], 16)
+            if (b >> 52) & 0x7FF == 0x7FF and b & ((1 << 52) - 1):
+                return True
+    return False
+
+
+def _same_up_to_nan_payload(t, a, b):
+    """Two 'ok <hex>' answers of equal length that decode to the same dump (every NaN printed alike): NaN payloads are
+    outside the specification, and the conversions of NumPy keep different parts of them."""
+    if not (a.startswith("ok ") and b.startswith("ok ")) or len(a) != len(b):
+        return False
+    cls = get_cls(t["cls"])
+    da = _guard(lambda: _decode(t, cls, [memoryview(bytearray(bytes.fromhex(a[3:].replace("-", ""))))])[1])
+    db = _guard(lambda: _decode(t, cls, [memoryview(bytearray(bytes.fromhex(b[3:].replace("-", ""))))])[1])
+    return da == db and da.startswith("ok ")
+
+
+def array_alternatives(t, salt, primary, fn, has_nan=False):
     """Answers of fn() under N_ALT_ARRAY other array spellings; -> None or 'err:spelling:…' for the first that differs."""
     if N_ALT_ARRAY <= 0 or primary == "n/a":
         return None
@@ -450,7 +472,7 @@ def array_alternatives(t, salt, primary, fn):
             STATS["array-inapplicable:" + name] += 1
             continue
         STATS["array:" + name] += 1
-        if a != primary:
+        if a != primary and not (has_nan and _same_up_to_nan_payload(t, a, primary)):
             return "err:spelling:array=%s:%s" % (name, a[:600])
     return None
 
@@ -557,22 +579,22 @@ def handle(types, line):
     def run():
         if op == "ser":
             a = _guard(ser_answer)
-            return array_alternatives(t, salt, a, ser_answer) or a
+            return array_alternatives(t, salt, a, ser_answer, _text_has_nan(rest)) or a
         if op == "serbuf":
             return "n/a"
         if op == "de":
             data = b"" if rest == "-" else bytes.fromhex(rest)
             return decode_all_spellings(t, cls, data, salt)[1]
-        if op == "de2":
+        if op == "dereuse":
             first, _, second = rest.partition(" ")
             _guard(lambda: nunavut_support.deserialize(cls, [memoryview(bytearray(b"" if first == "-" else bytes.fromhex(first)))]))
             data = b"" if second == "-" else bytes.fromhex(second)
             return decode_all_spellings(t, cls, data, salt)[1]
         if op == "rt":
             data, frs = _serialize(build_object(t, tokens(rest))[0])
-            alt = array_alternatives(t, salt, "ok " + (data.hex() or "-"), ser_answer)
+            alt = array_alternatives(t, salt, "ok " + (data.hex() or "-"), ser_answer, _text_has_nan(rest))
             return alt or rt_tail(data, frs)[1]
-        if op == "rt2":
+        if op == "rtreuse":
             toks = tokens(rest)
             bar = toks.index("|")
             try:
@@ -582,7 +604,7 @@ def handle(types, line):
                 old = None
             new = build_object(t, toks[bar + 1:])[0]
             obj = new if old is None else reassign(t, old, new)
-            STATS["rt2:reused" if old is not None else "rt2:fresh"] += 1
+            STATS["rtreuse:reused" if old is not None else "rtreuse:fresh"] += 1
             data, frs = _serialize(obj)
             return rt_tail(data, frs)[1]
         return "err:bad-op"
